@@ -593,3 +593,21 @@ func WriteFile(path, content string) {
 		Die("%v", err)
 	}
 }
+
+// WalkStack walks the tree below root in source order; visit receives each node together with
+// the stack of its ancestors (outermost first, not including the node itself) and returns false
+// to skip the node's children.
+func WalkStack(root ast.Node, visit func(n ast.Node, stack []ast.Node) bool) {
+	stack := []ast.Node{}
+	ast.Inspect(root, func(n ast.Node) bool {
+		if n == nil {
+			stack = stack[:len(stack)-1]
+			return false
+		}
+		if !visit(n, stack) {
+			return false // ast.Inspect does not call f(nil) for a skipped node
+		}
+		stack = append(stack, n)
+		return true
+	})
+}
